@@ -13,7 +13,8 @@ THEOREMS = ["Poor.HeaderValue.unescape_escQ", "Poor.HeaderValue.splitSeg_quoted"
             "Poor.Props.C18.C18_params", "Poor.Props.C18.C18_ranges", "Poor.Props.C18.C18_nego",
             "Poor.Props.C18.C18_total", "Poor.Props.C18.pattern_pinned", "Poor.Date.ord_roundtrip",
             "Poor.Date.ord2ymd_valid", "Poor.Date.ord2ymd_year", "Poor.Date.parse_render", "Poor.Props.C18.C18_dates",
-            "Poor.Props.C18.C18_dates_injective", "Poor.Props.C18.C18_dates_width"]
+            "Poor.Props.C18.C18_dates_injective", "Poor.Props.C18.C18_dates_width", "Poor.Date.ymd_roundtrip",
+            "Poor.Props.C18.C18_calendar_bijection", "Poor.Props.C18.C18_dates_parse_sound"]
 TRUSTED_BASE = ["model Poor.HeaderValue hand-written from headers.py:27-144 and wsgiref.headers._formatparam",
                 "RE_BYTES_RANGE scanner: pattern text pinned by Gen.Patterns (obligation pattern_pinned)",
                 "q-values: float(str(x)) == x for CPython floats (repr round trip) - canonicalised by the harness",
